@@ -7,6 +7,7 @@ import (
 	"fmt"
 	"go/token"
 	"go/types"
+	"sort"
 	"strings"
 
 	"golang.org/x/tools/go/ssa"
@@ -89,12 +90,19 @@ func checkC12(p *Prog, r *Report) {
 	if nil == newCall {
 		rWire.Unproven("main.rmain→hsrv.New", rm.Pos(), "call not found")
 	} else {
-		for k, pa := range hnew.Params {
-			want, ok := table[pa.Name()]
-			if !ok {
+		var tnames []string
+		for pn := range table {
+			tnames = append(tnames, pn)
+		}
+		sort.Strings(tnames)
+		for _, pn := range tnames {
+			pa := paramNamed(hnew, pn)
+			if nil == pa {
 				continue
 			}
-			c := "main.rmain→hsrv.New(" + pa.Name() + ")"
+			k := paramIndex(hnew, pa)
+			want := table[pn]
+			c := "main.rmain→hsrv.New(" + pn + ")"
 			got := flagNameOf(newCall.Common().Args[k])
 			switch {
 			case "" == got:
@@ -119,7 +127,7 @@ func checkC12(p *Prog, r *Report) {
 	sts := p.storesToField(oneShell)
 	for _, st := range sts {
 		c := fnName(st.Parent()) + ":Server.oneShell"
-		if pa, ok := stripBoolConv(st.Val).(*ssa.Parameter); ok && st.Parent() == hnew && "oneShell" == pa.Name() {
+		if pa, ok := stripBoolConv(st.Val).(*ssa.Parameter); ok && st.Parent() == hnew && pa == paramNamed(hnew, "oneShell") {
 			rWire.OK(c, posOf(st), "set from New's oneShell parameter")
 		} else {
 			rWire.Bad(c, posOf(st), "Server.oneShell is written from %s in %s", rootsString(valueRoots(st.Val, nil)), fnName(st.Parent()))
